@@ -135,10 +135,14 @@ theorem raw_refuse_closes (s : Server) (cmd : Nat)
   · simp [h1, h2]
 
 /-- **valid_commands_sound**: the commands advertised after authentication are only commands the
-    session could run right now under the dispatch-time check. -/
+    session could run right now under the dispatch-time check: registered, not raw, the command's
+    current level met by the session, AND the session's identity authorized at one of the command's
+    levels by the current authorizer (nothing is advertised without an authorizer; a command
+    registered with no level is never advertised). -/
 theorem valid_commands_sound (s : Server) (sess : Sess) (c : Nat) (h : c ∈ s.validCommands sess) :
-    ∃ hd, (c, hd) ∈ s.handlers ∧ hd.raw = false ∧
-          levelOK (s.policyFor c) sess.authenticated sess.encrypted = true := by
+    ∃ hd a, (c, hd) ∈ s.handlers ∧ hd.raw = false ∧
+          levelOK (s.policyFor c) sess.authenticated sess.encrypted = true ∧
+          s.authorizer = some a ∧ hd.perms.any (fun perm => a perm sess.user) = true := by
   unfold Server.validCommands at h
   cases ha : s.authorizer with
   | none => simp [ha] at h
@@ -146,7 +150,27 @@ theorem valid_commands_sound (s : Server) (sess : Sess) (c : Nat) (h : c ∈ s.v
     simp only [ha, List.mem_map, List.mem_filter] at h
     obtain ⟨⟨c', hd⟩, ⟨hmem, hcond⟩, rfl⟩ := h
     simp only [Bool.and_eq_true, Bool.not_eq_true'] at hcond
-    exact ⟨hd, hmem, hcond.1.1.1, hcond.1.2⟩
+    exact ⟨hd, a, hmem, hcond.1.1.1, hcond.1.2, rfl, hcond.2⟩
+
+/-- **valid_commands_dispatchable**: when the handler table is a map (the entry advertised is the
+    one `lookup` finds — `Handle` replaces, never duplicates), every advertised command passes the
+    very check the dispatch loop applies (`sessionSatisfies`): the advertisement is never broader
+    than what the session can run now. -/
+theorem valid_commands_dispatchable (s : Server) (sess : Sess) (c : Nat) (h : c ∈ s.validCommands sess)
+    (hmap : ∀ hd, (c, hd) ∈ s.handlers → s.lookup c = some hd) :
+    s.satisfies c sess = true := by
+  obtain ⟨hd, a, hmem, _, hlv, haz, hany⟩ := valid_commands_sound s sess c h
+  unfold Server.satisfies Server.authorizedFor
+  rw [hlv, haz, hmap hd hmem]
+  simpa using hany
+
+/-- **no_level_never_authorized**: with an authorizer configured, a command registered with no
+    permission level is refused for every identity (there is no level the identity could hold). -/
+theorem no_level_never_authorized (s : Server) (a : String → String → Bool) (c : Nat) (hd : Handler) (sess : Sess)
+    (ha : s.authorizer = some a) (hl : s.lookup c = some hd) (hp : hd.perms = []) :
+    s.satisfies c sess = false := by
+  unfold Server.satisfies Server.authorizedFor
+  simp [ha, hl, hp]
 
 /-! Non-vacuity (tests). -/
 def srv : Server :=
